@@ -26,7 +26,8 @@ ASSUMPTIONS = ["sys.addaudithook sees every Python-level file-system mutation ma
 SHARDS = {"quick": 1, "thorough": 16}
 
 NAMES = ["a.js", "b c.js", "100%.js", "x%20y.js", "h#1.js", "q?v=1.js", "amp&x.css", "quo'te.js", "dq\"x.css", "ünï.js", "中文.css",
-         "sub/dir/n.js", "sub/.hidden.js", ".dot.css", "sp ace/de ep/f.js", "plus+.js", "semi;colon.css", "tilde~.js", "eq=.js", "bs\\x.js"]
+         "sub/dir/n.js", "sub/.hidden.js", ".dot.css", "sp ace/de ep/f.js", "plus+.js", "semi;colon.css", "tilde~.js", "eq=.js", "bs\\x.js",
+         "e\u0301 decomposed.js", "A\u030angstrom.css", "deep/er/and/deeper/f.js", "ﬁ-ligature.js"]
 
 
 def sha(path):
@@ -64,6 +65,11 @@ def make_source(base, files, extra=True):
             f.write(bytes(range(256)))
         with open(os.path.join(base, ".dotfile"), "w") as f:
             f.write("dot")
+        # entries that look like build by-products are still part of "the whole source directory"
+        os.makedirs(os.path.join(base, "extra dir", "__pycache__"), exist_ok=True)
+        for nm in ("extra dir/__pycache__/m.cpython-312.pyc", "extra dir/x.pyc", "extra dir/.DS_Store", "extra dir/Thumbs.db", "node_modules.txt"):
+            with open(os.path.join(base, nm), "w") as f:
+                f.write(nm)
 
 
 class Scratch:
